@@ -6,6 +6,9 @@ export GOFLAGS=-mod=mod GOPROXY=off GOSUMDB=off GOTOOLCHAIN=local
 lane=$1; tier=$2; shift 2
 wt=/tmp/seedwt-$lane; logs=/tmp/seedlane-$lane; mkdir -p $logs
 git -C /repo worktree remove --force $wt 2>/dev/null; git -C /repo worktree add -q --detach $wt HEAD || exit 2
+# a snapshot of the harness directory and of the binary, so that editing and rebuilding can go on while the lane runs
+snap=/tmp/seedsnap-$lane; rm -rf $snap; mkdir -p $snap; cp -r /verif/harness $snap/harness; cp /verif/bin/verif $snap/verif
+export VERIF_HARNESS=$snap/harness
 cd /verif
 for name in "$@"; do
   d=seeded/$name; prop=${name%-*}
@@ -15,10 +18,10 @@ for name in "$@"; do
     printf "%s\t%s\texit=? (patch does not apply)\t0s\t\n" "$name" "$(basename $patch)" >> seeded/RESULTS_${tier}_$lane.tsv; continue
   fi
   s=$(date +%s)
-  VERIF_REPO=$wt bin/verif check $prop --tier $tier > $logs/$name.log 2>&1; rc=$?
+  VERIF_REPO=$wt $snap/verif check $prop --tier $tier > $logs/$name.log 2>&1; rc=$?
   e=$(date +%s)
   viol=$(grep '^VIOLATION' $logs/$name.log | sed 's/.*# //' | sort -u | head -3 | tr '\n' ';')
   printf "%s\t%s\texit=%s\t%ss\t%s\n" "$name" "$(basename $patch)" "$rc" "$((e-s))" "$viol" >> seeded/RESULTS_${tier}_$lane.tsv
 done
-git -C /repo worktree remove --force $wt
+git -C /repo worktree remove --force $wt; rm -rf $snap
 echo LANE-DONE >> seeded/RESULTS_${tier}_$lane.tsv
